@@ -222,6 +222,89 @@ fn candidates(scn: &Scenario) -> Vec<Scenario> {
             }
         }
     }
+    // world-specific operations
+    for t in 0..scn.threads.len() {
+        for i in 0..scn.threads[t].len() {
+            match &scn.threads[t][i] {
+                Op::LendSession { steps, exclusive, .. } => {
+                    for k in (0..steps.len()).rev() {
+                        let mut c = scn.clone();
+                        if let Op::LendSession { steps, .. } = &mut c.threads[t][i] {
+                            steps.remove(k);
+                        }
+                        out.push(c);
+                        if let LendStep::Take { n, .. } = steps[k] {
+                            if n > 1 {
+                                let mut c = scn.clone();
+                                if let Op::LendSession { steps, .. } = &mut c.threads[t][i] {
+                                    if let LendStep::Take { n, .. } = &mut steps[k] {
+                                        *n = if *n > 8 { *n / 2 } else { *n - 1 };
+                                    }
+                                }
+                                out.push(c);
+                            }
+                        }
+                    }
+                    if *exclusive && !steps.iter().any(|s| matches!(s, LendStep::MakeMut { .. } | LendStep::ViaMut { .. })) {
+                        let mut c = scn.clone();
+                        if let Op::LendSession { exclusive, .. } = &mut c.threads[t][i] {
+                            *exclusive = false;
+                        }
+                        out.push(c);
+                    }
+                }
+                Op::Own { die_with_value, fault, .. } => {
+                    if *die_with_value {
+                        let mut c = scn.clone();
+                        if let Op::Own { die_with_value, .. } = &mut c.threads[t][i] {
+                            *die_with_value = false;
+                        }
+                        out.push(c);
+                    }
+                    if fault.is_some() {
+                        let mut c = scn.clone();
+                        if let Op::Own { fault, .. } = &mut c.threads[t][i] {
+                            *fault = None;
+                        }
+                        out.push(c);
+                    }
+                }
+                Op::AsyncGroup { tasks, plan, .. } => {
+                    for k in (0..plan.len()).rev() {
+                        let mut c = scn.clone();
+                        if let Op::AsyncGroup { plan, .. } = &mut c.threads[t][i] {
+                            plan.remove(k);
+                        }
+                        out.push(c);
+                    }
+                    if tasks.len() > 1 {
+                        for k in (0..tasks.len()).rev() {
+                            let mut c = scn.clone();
+                            if let Op::AsyncGroup { tasks, plan, .. } = &mut c.threads[t][i] {
+                                tasks.remove(k);
+                                plan.retain(|s| !matches!(s, ExecStep::Poll(j) | ExecStep::Drop(j) if *j as usize == k));
+                                for s in plan.iter_mut() {
+                                    match s {
+                                        ExecStep::Poll(j) | ExecStep::Drop(j) if (*j as usize) > k => *j -= 1,
+                                        _ => {}
+                                    }
+                                }
+                            }
+                            out.push(c);
+                        }
+                    }
+                }
+                _ => {}
+            }
+        }
+    }
+    for k in (0..scn.config.specials.len()).rev() {
+        if scn.config.specials.len() > 1 {
+            let mut c = scn.clone();
+            c.config.specials.remove(k);
+            out.push(c);
+        }
+    }
     if scn.config.partial {
         let mut c = scn.clone();
         c.config.partial = false;
